@@ -296,3 +296,29 @@ __CPROVER_ensures(self->timestamp == other->timestamp && self->macro_metadata ==
     harness='  TEf* a; TEf* b; TE_move_assign(a, b);',
     dropped=['unique_ptr move as pointer copy (the moved-from event is not read again)'], trusted=[], min_obligations=5)
 UNITS += [te_copy, te_move]
+
+# ------------------------------------------------------------------------------------------ LoggerImpl::_prepare_write_buffer
+PW_PRELUDE = r'''
+typedef struct Qx { int d; } Qx;
+typedef struct TCx { Qx g_queue; } TCx;                /* the calling thread's context: its one queue (of the frontend's queue type) */
+typedef struct LG { TCx* thread_context; } LG;
+size_t g_prepares, g_prepare_arg; Qx* g_prepared_queue; unsigned char* g_grant;
+static inline Qx* TC_get_spsc_queue(TCx* t) { return &t->g_queue; }
+unsigned char* Q_prepare_write(Qx* q, size_t n) __CPROVER_assigns(g_prepares, g_prepare_arg, g_prepared_queue) __CPROVER_ensures(g_prepares == OLD(g_prepares) + 1 && g_prepare_arg == n && g_prepared_queue == q && RET == g_grant);
+'''
+prepare_wb = dict(
+    name='LG.prepare_write_buffer', primary='C08', props={'C08', 'C03', 'C04'}, kind='S',
+    desc='LoggerImpl::_prepare_write_buffer: one reservation of exactly the computed record size on the calling thread\'s own queue; its answer is handed back unchanged',
+    structs=[], prelude=PW_PRELUDE, enforce='LG__prepare_write_buffer', replace=['Q_prepare_write'],
+    funcs=[dict(src=dict(header=LH, cls='LoggerImpl', name='_prepare_write_buffer'), src_params=['total_size'], cfun='LG__prepare_write_buffer', sig='unsigned char* LG__prepare_write_buffer(LG* self, size_t total_size)', cls_c='LG',
+                member_fields=['thread_context'], ret_default='NULL',
+                pre_rules=[(r'thread_context->get_spsc_queue<frontend_options_t::queue_type>\(\)\s*\.prepare_write\(', 'Q_prepare_write(TC_get_spsc_queue(thread_context), ')],
+                contract=r'''
+__CPROVER_requires(__CPROVER_is_fresh(self, sizeof(*self)) && __CPROVER_is_fresh(self->thread_context, sizeof(TCx)) && g_prepares == 0)
+__CPROVER_assigns(g_prepares, g_prepare_arg, g_prepared_queue)
+__CPROVER_ensures(g_prepares == 1 && g_prepare_arg == total_size && g_prepared_queue == &self->thread_context->g_queue) /*@ C04,C08 "the space reserved for a statement is exactly its computed encoded size, on the calling thread's own queue, in one reservation" */
+__CPROVER_ensures(RET == g_grant) /*@ C08 "the queue's answer (granted or refused) is what log_statement acts on" */
+''')],
+    harness='  LG* l; size_t n; LG__prepare_write_buffer(l, n);',
+    dropped=['the queue union / template queue type as one queue object per thread context'], trusted=['the queues\' prepare_write by units BQ.prepare_write / UQ.prepare_write'], min_obligations=3)
+UNITS += [prepare_wb]
